@@ -29,7 +29,7 @@ CLAIMS = {
                 "row swap must be immediately followed by the rhs swap with the same (j,k) under j != k with k = argabsmax(A[j.., j]) + j, argabsmax "
                 "must compare absolute values; back substitution is x[i] = (b[i] - u[i,i+1..].x[i+1..])/u[i,i] descending in both; with allow_lsq the "
                 "system is (A^T A, A^T b) from the same transposed operand. Numerical correctness of elimination is NOT decided."
-                ' Also: row_swap/el_swap exchange whole rows/elements (R13.1); the AD rules and the sum rules R19.4/R19.5 are included (inner products are Iterator::sum). R13.6: the Python-facing solver entry points hand a (reshaped row-major), b and allow_lsq to the core solver unchanged and return its result as it is.',
+                ' Also: row_swap/el_swap exchange whole rows/elements (R13.1); the AD rules and the sum rules R19.4/R19.5 are included (inner products are Iterator::sum). R13.6: the Python-facing solver entry points hand a (reshaped row-major), b and allow_lsq to the core solver unchanged and return its result as it is. R13.7: the product helpers (inner = sum of a_i*b_i over the zipped pair; matrix products as inner products over rows x cols, row-major, in shape (rows(a), cols(b)); outer products; float crossovers) are evaluated with ndarray lanes modelled.',
         "design_ref": "DESIGN.md §4 C13",
         "note": "Not decided (declared): that the returned vector solves the system in value and derivatives for all well-conditioned inputs; row-order independence.",
         "technique": "sibling cross-check of canonical update-statement lists; call pairing with index agreement; idiom check",
@@ -41,7 +41,7 @@ CLAIMS = {
                 "index) and paired with edge writes; crosses only where the edge entry is 0; Ok(true) only under edges.sum()==n*n, exhausted "
                 "candidates give Err; lookup reads [idx(lhs), idx(rhs)] in all variants. By induction every entry of an Ok market is the product of "
                 "quotes along a path with inverses on reversed edges, quoted pairs returned as quoted."
-                " Also included: C10's state rules R10.3-R10.6, the FXRates loader rule (S20.2: a stored market goes through try_new) and R10.7 (Python-facing FXRates methods delegate unchanged). S16.1 is included (a stored market's quotes come back exactly: exact float text round trip); the starting-array builders are found by what they return, not by name. R09.8: the edge-count capacity; the Ccy/FXPair loader rules are included. R09.9: a quote is stored as given (FXRate::try_new, and Python's FXRate(...) is that constructor).",
+                " Also included: C10's state rules R10.3-R10.6, the FXRates loader rule (S20.2: a stored market goes through try_new) and R10.7 (Python-facing FXRates methods delegate unchanged). S16.1 is included (a stored market's quotes come back exactly: exact float text round trip); the starting-array builders are found by what they return, not by name. R09.8: the edge-count capacity; the Ccy/FXPair loader rules are included. R09.9: a quote is stored as given (FXRate::try_new, and Python's FXRate(...) is that constructor). R09.10: == and hash of Ccy and FXPair are the derived structural ones.",
         "design_ref": "DESIGN.md §4 C09",
         "note": "Not decided (declared): that every valid tree is accepted (liveness of the recursive fill-in); order/base independence as executed; rounding.",
         "technique": "path flattening of symbolic summaries; array-comprehension semantics of indexed writes (chain typing); quantifier shapes",
@@ -128,7 +128,7 @@ CLAIMS = {
                 "first-interval rule of the zero-rate formula; the flat rules are compared as canonical (condition, value) pairs; every interpolator "
                 "must feed nodes index/index+1 of its own map (x0 from index 0) to its own formula in order, with index = node_index = "
                 "index_left(keys, ts, None); CurveDF::try_new sorts on every path to construction and is the only constructor."
-                ' Also: R11.5 (index_left as the bisection recurrence, judged per region of list lengths), R11.6 (node keys converted exactly as the query date), R11.4 widened to every CurveDF construction incl. the loader, R12.2 (sort before tagging) and R12.4 (the Python-facing Curve delegates unchanged). R11.7: first_key()/keys()/sort_keys() of the node map do the same for all three kinds.',
+                ' Also: R11.5 (index_left as the bisection recurrence, judged per region of list lengths), R11.6 (node keys converted exactly as the query date), R11.4 widened to every CurveDF construction incl. the loader, R12.2 (sort before tagging) and R12.4 (the Python-facing Curve delegates unchanged). R11.7: first_key()/keys()/sort_keys() of the node map do the same for all three kinds. R11.8: CurveDF::node_index/interpolated_value are the interpolator's on the curve's own nodes.',
         "design_ref": "DESIGN.md §4 C11",
         "note": "Not decided: index_left (recursive bisection) — which interval a date falls in, clamping; 'between the nodes' is a numeric consequence. Trusted: lib/cel.py.",
         "technique": "symbolic normalisation of typed HIR vs closed forms; MIR must-pass-through (sort before construct); who-may-construct",
@@ -148,7 +148,7 @@ CLAIMS = {
                 "Number, new(f, vars), and every operator/comparison on the Number container for all 9 (or 3) kind cases are evaluated symbolically with "
                 "the constructor of the operand known; the result must be the right variant wrapping exactly the contained types' rule (oracle form), "
                 "values untouched, and exactly the (Dual,Dual2)/(Dual2,Dual) cases must diverge. Enumerates all cases of finite tables — complete for them."
-                " Also: R18.4 — every Python-facing arithmetic/comparison operator of Dual/Dual2, for every kind of the other operand, is the core operator in the right operand order (or Err); `%` is compared with the contained type's own `%` (not with a hand-written formula). Any other two-operand method of the container (abs_sub) is held to the same table.",
+                " Also: R18.4 — every Python-facing arithmetic/comparison operator of Dual/Dual2, for every kind of the other operand, is the core operator in the right operand order (or Err); `%` is compared with the contained type's own `%` (not with a hand-written formula). Any other two-operand method of the container (abs_sub) is held to the same table. Included: the container's Sum, identities and sign/zero tests (C19 R19.4-R19.6).",
         "design_ref": "DESIGN.md §4 C18",
         "note": "Trusted: lib/cel.py (structural match evaluation), lib/oracle.py. Refusal = panic! (divergence). Type-level refusal of Dual+Dual2 is a compile-fail witness (thorough tier, when built).",
         "technique": "exhaustive case evaluation of match tables over typed HIR (symbolic), compared with the calculus oracle",
@@ -212,7 +212,7 @@ CLAIMS = {
                 "reviewed table with the control depth it had when reviewed; types with a validating constructor must deserialise through a "
                 "panic-free validating conversion; struct literals of shape-constrained types are confined to reviewed constructors. "
                 "Quantifies over code sites, which is how 'for any input' is reached without running anything."
-                ' R20.1 judges sites per root function (closures and extracted private helpers absorbed) as a multiset against the reviewed budget; every row whose reason rests on a guard cites the rule deciding that guard, and C20 includes those rules (R15.2, R08.2/3/5, R03.1/3/5, R09.1/2, R05.4/5, R06.3, R10.4/6, R11.4). R20.6: every Ok path of a validating constructor/loader carries the shape invariant. Site rows whose review relies on a loop (`inside for i in 0..n`) record a minimum loop depth: a site hoisted out of its loop is reported.',
+                ' R20.1 judges sites per root function (closures and extracted private helpers absorbed) as a multiset against the reviewed budget; every row whose reason rests on a guard cites the rule deciding that guard, and C20 includes those rules (R15.2, R08.2/3/5, R03.1/3/5, R09.1/2, R05.4/5, R06.3, R10.4/6, R11.4). R20.6: every Ok path of a validating constructor/loader carries the shape invariant. Site rows whose review relies on a loop (`inside for i in 0..n`) record a minimum loop depth: a site hoisted out of its loop is reported. The entry list includes the pyo3 wrappers of the same operations (what a Python caller reaches).',
         "design_ref": "DESIGN.md §4 C20",
         "note": "Trusted: rustc MIR, the reviewed reasons in rules/c20_sites.json (classes L/I/R/K/S are human-reviewed; machine-checked part is "
                 "table membership + dominating-branch count), the denylist of aborting externals. Not decided: aborts inside dependencies outside "
